@@ -1,9 +1,18 @@
 use std::ptr::NonNull;
+#[cfg(folo_verif)]
+use std::sync::Arc;
+#[cfg(not(folo_verif))]
 use std::sync::atomic::{AtomicUsize, Ordering};
+#[cfg(not(folo_verif))]
 use std::sync::{Arc, Mutex};
 use std::task::{RawWaker, RawWakerVTable, Waker};
 
 use plurality::Pool;
+
+#[cfg(folo_verif)]
+use crate::verif_sync::Mutex;
+#[cfg(folo_verif)]
+use crate::verif_sync::atomic::{AtomicUsize, Ordering};
 
 // Per-slot metadata for activation tracking and waker management.
 //
